@@ -1,45 +1,75 @@
 #!/venv/bin/python
-"""Run every seeded change in /verif/seeded against the checks and write seeded/INDEX.md + results.json."""
+"""Run every seeded change in /verif/seeded against all checks and write seeded/INDEX.md + results.json.
+
+usage: tools/seed_index.py [id ...]
+Each change is applied to a scratch copy of /repo/sleap_nn (removed afterwards) and the checks run with --repo on it,
+12 changes in parallel.  (tools/run_seed.py applies one patch to /repo itself, as the task prescribes, for a single seed.)"""
 import json
 import os
+import re
+import shutil
 import subprocess
 import sys
+import tempfile
+from concurrent.futures import ThreadPoolExecutor
 
 HERE = os.path.dirname(os.path.dirname(os.path.abspath(__file__)))
-rows = []
-res = {}
+SD = os.path.join(HERE, "seeded")
+PROPS = ["C%02d" % i for i in range(1, 21) if i != 16]
 only = sys.argv[1:]
-prev = {}
+res = {}
 try:
-    prev = json.load(open(os.path.join(HERE, "seeded", "results.json")))
+    res = json.load(open(os.path.join(SD, "results.json")))
 except Exception:
     pass
-for d in sorted(os.listdir(os.path.join(HERE, "seeded"))):
-    p = os.path.join(HERE, "seeded", d, "patch.diff")
-    if not os.path.exists(p):
-        continue
-    if only and d not in only and d in prev:
-        res[d] = prev[d]
-        continue
-    r = subprocess.run([os.path.join(HERE, "tools", "run_seed.py"), p], capture_output=True, text=True)
-    verdict = r.stdout.strip().splitlines()[-1] if r.stdout.strip() else "ERROR " + r.stderr[-200:]
-    try:
-        fired = json.loads(r.stdout[: r.stdout.rindex("}") + 1])
-    except Exception:
-        fired = {}
-    res[d] = {"verdict": verdict, "fired": {k: v["rules"] for k, v in fired.items() if v["exit"] == 1}, "inconclusive": [k for k, v in fired.items() if v["exit"] == 2]}
-    print(d, res[d]["verdict"], res[d]["fired"], flush=True)
-json.dump(res, open(os.path.join(HERE, "seeded", "results.json"), "w"), indent=1)
-with open(os.path.join(HERE, "seeded", "INDEX.md"), "w") as f:
-    f.write("# Seeded changes (produced by independent sub-agents, confirmed by hand)\n\n| seed | property | what the change does | needs | verdict | rules that reported it |\n|---|---|---|---|---|---|\n")
-    for d, v in res.items():
+st = subprocess.run(["git", "-C", "/repo", "status", "--porcelain", "--", "sleap_nn"], capture_output=True, text=True).stdout.strip()
+if st:
+    sys.exit(f"/repo/sleap_nn is not clean:\n{st}")
+scratch = tempfile.mkdtemp(prefix="seedrun_")
+
+
+def run(d):
+    p = os.path.join(SD, d, "patch.diff")
+    w = os.path.join(scratch, d)
+    os.makedirs(w)
+    shutil.copytree("/repo/sleap_nn", os.path.join(w, "sleap_nn"))
+    r = subprocess.run(["git", "apply", p], cwd=w, capture_output=True, text=True)
+    if r.returncode != 0:
+        return d, {"verdict": "PATCH-DOES-NOT-APPLY", "fired": {}, "inconclusive": []}
+    fired, inc = {}, []
+    for c in PROPS:
+        k = subprocess.run([os.path.join(HERE, "check"), c, "--no-evidence", "--repo", w], capture_output=True, text=True, cwd=HERE)
+        if k.returncode == 1:
+            fired[c] = sorted(set(re.findall(r"^  (C\d\d-[\w]+)", k.stdout, flags=re.M)))
+        elif k.returncode != 0:
+            inc.append(c)
+    shutil.rmtree(w, ignore_errors=True)
+    own = d.split("-")[0]
+    verdict = "DETECTED" if fired else ("INCONCLUSIVE" if inc else "MISSED")
+    return d, {"verdict": verdict, "fired": fired, "inconclusive": inc, "own_property": own in fired}
+
+
+ids = [d for d in sorted(os.listdir(SD)) if os.path.exists(os.path.join(SD, d, "patch.diff")) and (not only or d in only)]
+try:
+    with ThreadPoolExecutor(12) as ex:
+        for d, v in ex.map(run, ids):
+            res[d] = v
+            print(d, v["verdict"], "own" if v.get("own_property") else "other-only" if v["fired"] else "-", v["fired"], flush=True)
+finally:
+    shutil.rmtree(scratch, ignore_errors=True)
+json.dump(res, open(os.path.join(SD, "results.json"), "w"), indent=1)
+with open(os.path.join(SD, "INDEX.md"), "w") as f:
+    f.write("# Seeded changes (produced by independent sub-agents, each confirmed with tools/import_seed.py)\n\n| seed | property | what the change does | needs | verdict | rules that reported it |\n|---|---|---|---|---|---|\n")
+    for d, v in sorted(res.items()):
         meta = {}
         try:
-            meta = json.load(open(os.path.join(HERE, "seeded", d, "meta.json")))
+            meta = json.load(open(os.path.join(SD, d, "meta.json")))
         except Exception:
             pass
         rules = "; ".join(f"{k}: {', '.join(r)}" for k, r in v["fired"].items())
         f.write(f"| {d} | {meta.get('property', '')} | {str(meta.get('summary', '')).replace('|', '/')[:300]} | {str(meta.get('needs', '')).replace('|', '/')[:200]} | {v['verdict']} | {rules} |\n")
     n = len(res)
     det = sum(1 for v in res.values() if v["verdict"] == "DETECTED")
-    f.write(f"\n{det} of {n} seeded changes are reported as VIOLATION by at least one check.\n")
+    own = sum(1 for v in res.values() if v.get("own_property"))
+    f.write(f"\n{det} of {n} seeded changes are reported as VIOLATION by at least one check; {own} by the check of the property they were written against.\n")
+print(sum(1 for v in res.values() if v["verdict"] == "DETECTED"), "of", len(res), "detected;", sum(1 for v in res.values() if v.get("own_property")), "by own property")
